@@ -288,11 +288,27 @@ def rule_elimination(ctx):
     ins = [i for i in method_calls(fb, "insert")]
     if len(ins) != 1:
         return ctx.missing(R, "remove_syntactic_sugar/functions/insert")
-    cs = [fact_str(c).replace(" ", "") for c in (conditions_to(fb, ins[0]) or [])]
-    ctx.check(R, "remove_syntactic_sugar/functions/tuples-rejected", "!body.contains_tuple(Some(reports))" in cs, "function kept under %s" % cs, site(SSR, ins[0]))
-    ctx.check(R, "remove_syntactic_sugar/functions/anonymous-components-rejected", "!body.contains_anonymous_component(Some(reports))" in cs, "function kept under %s" % cs, site(SSR, ins[0]))
+    conds = conditions_to(fb, ins[0]) or []
+    cs = [fact_str(c).replace(" ", "") for c in conds]
+    import sgrep
+
+    lenv = sgrep.lets(fb)
+    # the function's body: `let b = <loop variable>.get_body()`
+    bodies = [k_ for k_, v_ in lenv.items() if sgrep.match(sgrep.pattern("__f.get_body()"), v_, {})]
+
+    def rejected(call_pat):
+        """the insertion is reached only when `call_pat` (on the function body) was false"""
+        for c in conds:
+            if c[0] == "if" and not c[2]:
+                for b_ in (bodies or ["body"]) + ["__f.get_body()"]:
+                    if sgrep.match(sgrep.pattern(call_pat % b_), c[1], {}, None):
+                        return True
+        return False
+
+    ctx.check(R, "remove_syntactic_sugar/functions/tuples-rejected", rejected("%s.contains_tuple(Some(__r))"), "function kept under %s" % cs, site(SSR, ins[0]))
+    ctx.check(R, "remove_syntactic_sugar/functions/anonymous-components-rejected", rejected("%s.contains_anonymous_component(Some(__r))"), "function kept under %s" % cs, site(SSR, ins[0]))
     for v in sorted(residue):
-        ok = any(("remove_tuples_from_statement(body.clone())" in c and c.startswith("!(letErr(")) for c in cs)
+        ok = any(c[0] == "iflet" and c[3] and render(c[1]).replace(" ", "").startswith("Ok(") and any(sgrep.match(sgrep.pattern("remove_tuples_from_statement(%s)" % b_), c[2], {}) for b_ in (bodies or ["body"]) + ["__f.get_body()"]) for c in conds)
         ctx.check(R, "remove_syntactic_sugar/functions/%s-rejected" % v, ok, "a function containing a %s that is neither a tuple assignment nor an anonymous component call (e.g. `1 = x;`) reaches the lifting, which panics; function kept under %s" % (v, cs), site(SSR, ins[0]))
 
 
@@ -373,9 +389,33 @@ def rule_binding(ctx):
     if fn is None:
         return ctx.missing(R, "remove_anonymous_from_expression")
     le = let_env(fn["body"])
-    for nm, want in (("inputs", "template.unwrap().get_declaration_inputs()"), ("outputs", "template.unwrap().get_declaration_outputs()")):
-        v = le.get(nm)
-        ctx.check(R, "anonymous/%s-in-declaration-order" % nm, v is not None and render(strip(v)).replace(" ", "") == want, "%s = %s" % (nm, render(v) if v else "?"), site(SSR, fn))
+    import sgrep as _sg
+
+    lookup = _sg.pattern("__ts.get(__id)")
+
+    def is_template_lookup(e, depth=0):
+        """does the expression denote the looked-up template (`templates.get(&id)`, through lets / Some bindings / unwrap)?"""
+        e = strip(e)
+        while e["k"] == "MethodCall" and e["method"] in ("unwrap", "as_ref", "expect", "clone"):
+            e = strip(e["recv"])
+        if _sg.match(lookup, e, {}):
+            return True
+        if e["k"] == "Path" and depth < 4:
+            for n_ in walk(fn["body"]):
+                if n_["k"] == "Local" and n_["init"] is not None:
+                    p_ = n_["pat"]
+                    if p_["k"] == "PIdent" and p_["name"] == e["path"] and is_template_lookup(n_["init"], depth + 1):
+                        return True
+                    if p_["k"] == "PTupleStruct" and last(p_["path"]) == "Some" and render(p_["elems"][0]).replace("&", "").strip() == e["path"] and is_template_lookup(n_["init"], depth + 1):
+                        return True
+                if n_["k"] == "Let" and n_["pat"]["k"] == "PTupleStruct" and last(n_["pat"]["path"]) == "Some" and render(n_["pat"]["elems"][0]).replace("&", "").strip() == e["path"] and is_template_lookup(n_["e"], depth + 1):
+                    return True
+        return False
+
+    for nm in ("inputs", "outputs"):
+        vs = [v_ for v_ in le.values() if strip(v_)["k"] == "MethodCall" and strip(v_)["method"] == "get_declaration_" + nm]
+        okd = len(vs) == 1 and is_template_lookup(strip(vs[0])["recv"])
+        ctx.check(R, "anonymous/%s-in-declaration-order" % nm, okd, "%s = %s" % (nm, render(vs[0]) if vs else "?"), site(SSR, fn))
     bad = [render(m)[:60] for m in walk(fn["body"]) if m["k"] == "MethodCall" and m["method"] in ("get_inputs", "get_outputs")]
     ctx.check(R, "anonymous/no-sorted-maps", not bad, "uses the name-sorted maps: %s" % bad, site(SSR, fn))
     import sgrep
@@ -437,13 +477,20 @@ def rule_binding(ctx):
             same = [p_ for p_ in pushes_ if render(strip(p_["recv"])) == vec]
             oki2 = bool(same) and same[0] is inst_push[0]
     ctx.check(R, "anonymous/instantiation-first", oki2, "the component is instantiated before any of its inputs is assigned", site(SSR, fn))
-    okt = any(i_["k"] == "If" and render(strip(i_["cond"])).replace(" ", "").endswith(".is_none()") and "Err(" in render(i_["then"]) and "does not exist" in render(i_["then"]) for i_ in walk(body))
+    okt = False
+    for r_ in walk(body):
+        if r_["k"] == "Return" and r_.get("e") and "Err(" in render(r_["e"]) and "does not exist" in render(r_["e"]):
+            for c_ in conditions_to(body, r_) or []:
+                if c_[0] == "iflet" and c_[3] and render(c_[1]).strip() == "None" and is_template_lookup(c_[2]):
+                    okt = True
+                if c_[0] == "if" and not c_[2] and strip(c_[1])["k"] == "MethodCall" and strip(c_[1])["method"] == "is_some" and is_template_lookup(strip(c_[1])["recv"]):
+                    okt = True
     ctx.check(R, "anonymous/unknown-template-rejected", okt, "", site(SSR, fn))
     # tuple assignment: element-wise, in order, `_` consumes
     rt = find_fn(SSR, "remove_tuples_from_statement")
     if rt is not None:
         rb = rt["body"]
-        lr = sgrep.find(rb, "let __l = __lv.remove(0)")
+        lr = sgrep.find(rb, "__lv.remove(0)")
         okel = False
         det = ""
         if len(lr) == 2:
